@@ -86,13 +86,15 @@ def models(prop, tier):
   produces verdicts).  Direction A replays the variant the tree under test implements."""
   full = dict(('ZKFIX_' + f, '1') for f in ALL_FIXES)
   out = [dict(module='ZkServerSet', cfg='ZkServerSet_q.cfg', env=full, coverage=True,
+              may_be_unused=['Return', 'Expire'],      # no blocking policy here (ZkServerSet_blk.cfg has one)
               what='repaired design DW+PD+VM: 2 names, history <= 7, path created <= 3x, raising policy <= 1'),
          dict(module='ZkServerSet', cfg='ZkServerSet_n1.cfg', env=full,
               what='repaired design: 1 name, history <= 10, path created <= 4x (deep churn of the path)'),
          dict(module='ZkServerSet', cfg='ZkServerSet_d.cfg', env=full,
               what='repaired design: 3 node names carrying 2 data values (an instance registering again under a '
                    'new node name), history <= 7, path created <= 2x'),
-         dict(module='ZkServerSet', cfg='ZkServerSet_blk.cfg', env=full,
+         dict(module='ZkServerSet', cfg='ZkServerSet_blk.cfg', env=full, coverage=True,
+              may_be_unused=['Expire'],                # only the weaker design ZKFIX_TO has it
               what='repaired design with BLOCKING consumer callbacks (the worker parked inside on_join / on_leave while '
                    'the tree changes, action Return): 2 names, history <= 6, path created <= 2x, raising policy <= 1, '
                    'blocking policy <= 1'),
@@ -319,8 +321,9 @@ class Driver(object):
       if outcome == 'nonode' and op == 'get' and path != PATH:
         self.nonode_reads += 1
       # q / r: which request was answered and how (informational for ZkAbs; used by `witness`):
-      # ex / get / gc = exists, get, watched get_children of the path; ls = unwatched listing; rd = member read
-      q = ('rd' if path != PATH else 'ex' if op == 'exists' else 'get' if op == 'get'
+      # ex / get / gc = watched exists, get, get_children of the path (the DataWatch's reads, a ChildrenWatch's listing);
+      # mex / ls = unwatched exists (_monitor) / listing (__iter__); rd = member read
+      q = ('rd' if path != PATH else ('ex' if watched else 'mex') if op == 'exists' else 'get' if op == 'get'
            else 'gc' if watched else 'ls')
       # r: ok / no = the node was there / was not (NoNodeError, or None from exists) when the request was answered
       there = outcome == 'ok' and (op != 'exists' or zk.srv_exists(path))
@@ -870,14 +873,19 @@ def witness(prop, t, consumed, clause):
                                         and its re-creation (the deletion was completely processed)
     recreated_before_quiescence         somewhere in the history the path was re-created with no quiescent
                                         point since its deletion (the client had not caught up)
-    unsettled_recreate                  (= stale_children_watch; the name is the one known_findings.json uses) somewhere in
-                                        the history the path was re-created while the client had caught up with its
-                                        deletion only half: a listing of a ChildrenWatch had been answered NoNode for the
-                                        deleted path (that watch stops itself) and the DataWatch had not been told yet
-                                        (no exists -> None answered since the deletion), so _watching stays True and nothing
-                                        starts a new children watch.  A re-creation the client has not noticed at all (no
-                                        listing answered NoNode: e.g. an empty, fully watched path deleted and re-created at
-                                        once) or has noticed completely is not this situation.
+    unsettled_recreate                  (= stale_children_watch; the name is the one known_findings.json uses) the life of
+                                        the path is a sequence of states (absent, 1st incarnation, absent, 2nd ...); the
+                                        DataWatch observes a state when a read of it that makes it call back is answered
+                                        in that state (get -> data, or exists -> None after get -> NoNode), and _watching /
+                                        the start of a children watch follow what the DataWatch observed.  True iff somewhere in the history a listing of a ChildrenWatch
+                                        was answered in a state of the path that the DataWatch NEVER observed: NoNode in an
+                                        absence it missed (that watch stops itself while _watching stays True: deaf), or
+                                        a successful listing in an incarnation it missed (a watch left over from an earlier
+                                        incarnation reports members of an incarnation whose end nobody will report).  Both are
+                                        the children watch not being tied to the incarnation of the path.  A re-creation the
+                                        client did not notice at all (no listing answered in the missed state, e.g. an empty,
+                                        fully watched path deleted and re-created at once: its surviving watch lists the new
+                                        incarnation after the DataWatch has read it) is not this situation.
     members_held_at_parent_delete       members the consumer held when the path was last deleted (0, 1, 2 = two or more)
     consumer_extra / consumer_missing   at the failing quiescent point the consumer holds a member that is
                                         not present / lacks a member that is present
@@ -907,22 +915,26 @@ def witness(prop, t, consumed, clause):
       w['parent_recreated'] = True
       w['settled_before_recreate'] = any(e['e'] == 'Q' for e in after[:pc[0]])
   w['recreated_before_quiescence'] = False
-  gone = settled = lost = told = False
+  gone = settled = False
+  seen = listed = False       # in the current state of the path: the DataWatch read it / a ChildrenWatch listing was answered
   for e in ev:
+    if e['e'] in ('PDelete', 'PCreate'):
+      if listed and not seen:
+        w['unsettled_recreate'] = True
+      seen = listed = False
     if e['e'] == 'PDelete':
-      gone, settled, lost, told = True, False, False, False
+      gone, settled = True, False
     elif e['e'] == 'Q' and gone:
       settled = True
-    elif e['e'] == 'Serve' and gone:
-      if e.get('q') == 'gc' and e.get('r') == 'no':
-        lost = True
-      elif e.get('q') == 'ex' and e.get('r') == 'no':
-        told = True
+    elif e['e'] == 'Serve':
+      if (e.get('q'), e.get('r')) in (('get', 'ok'), ('ex', 'no')):
+        seen = True       # the two answers that make the DataWatch call back (get -> NoNode and exists -> stat only
+                          # make it ask again)
+      elif e.get('q') == 'gc':
+        listed = True
     elif e['e'] == 'PCreate':
       if gone and not settled:
         w['recreated_before_quiescence'] = True
-      if gone and lost and not told:
-        w['unsettled_recreate'] = True
       gone = False
   w['stale_children_watch'] = w['unsettled_recreate']
   last = ev[-1] if ev else None
